@@ -396,6 +396,14 @@ type implRun struct {
 	Windows  int // intruders that ran inside the window of a flush
 	Deferred int // intruders that had to wait for the flush (store mutex)
 	Unopened int // windows that never opened (flush failed before / fewer entries)
+	LockObs  []lockObs
+}
+
+// lockObs: a call of another goroutine issued inside a running flush either ran there or waited (observed)
+type lockObs struct {
+	Op     string
+	WT     bool
+	Inside bool
 }
 
 type failure struct {
@@ -527,6 +535,7 @@ func runImpl(cs *Case) (*implRun, *failure) {
 		st := stepJ{Res: res, Loc: r.loc(), Api: api, NextRv: m3.nextRv, Calls: m3.calls, Stopped: r.stopped, IRes: "ok"}
 		switch {
 		case win != nil && win.inside:
+			out.LockObs = append(out.LockObs, lockObs{intr.Op.Op, r.wt, true})
 			out.Windows++
 			op.Intr = intr
 			ob.Op = op
@@ -546,6 +555,7 @@ func runImpl(cs *Case) (*implRun, *failure) {
 		out.Steps = append(out.Steps, st)
 		if win != nil && win.blocked {
 			// the intruder waited for the flush: it runs now, as an operation of its own
+			out.LockObs = append(out.LockObs, lockObs{intr.Op.Op, r.wt, false})
 			out.Deferred++
 			iop := intr.Op
 			ibefore := r.loc()
@@ -678,6 +688,17 @@ func evalSeq(c *rig.Ctx, cs Case) (*failure, *implRun) {
 		}
 		if !v.Ok {
 			return fail(&failure{kind: "judge", class: classOfKind[v.Kind], impl: v.Api, what: describe(v, impl.Obs)})
+		}
+	}
+	// which calls wait for a running flush: the regenerated lock facts the theorems rest on, against what was observed
+	for _, lo := range impl.LockObs {
+		var locks map[string]bool
+		if err := c.Model("C19.locks", map[string]interface{}{"wt": lo.WT}, &locks); err != nil {
+			return fail(&failure{kind: "diff", class: "c19.model-error", what: "locks: " + err.Error()})
+		}
+		if locks[lo.Op] != lo.Inside {
+			return fail(&failure{kind: "diff", class: "c19.lock-fact", impl: lo.Inside, model: locks[lo.Op],
+				what: fmt.Sprintf("a %s issued while a flush was running (write-through=%v): ran inside the flush=%v, the lock facts extracted from the source say %v", lo.Op, lo.WT, lo.Inside, locks[lo.Op])})
 		}
 	}
 	// correspondence with the model, on the operations as they really ran
